@@ -22,9 +22,13 @@ def run(chk):
                     'input and that their verdict is obeyed; the interpreter itself is C10-C12')
     chk.assume_note('A-HASH: the covenant hash of a script is an injective function of its bytes')
     kernel(chk, it)
+    # more inputs than any fixed-size grouping a validator might process them in (position among the inputs must be the
+    # position in the whole transaction): one carried covenant, so the branching per input stays small
+    for n_in in ((9,) if chk.tier == 'quick' else (3, 9, 17)):
+        kernel(chk, it, n_in=n_in, n_cov=1)
 
 
-def kernel(chk, it):
+def kernel(chk, it, n_in=2, n_cov=2):
     G.reset()
     G.atomic_domains = {'single:Transaction'}
     st = State()
@@ -32,7 +36,7 @@ def kernel(chk, it):
     B.install_history_invariant(it, sterms['height'])
     st.pc.append(z3.UGE(sterms['height'], 1))
     st.pc.append(z3.ULE(sterms['height'], 100_000_000))
-    tx, tt = B.sym_tx('tx', 2, 1, 2, st.pc, exclude_kinds=('DoscMint',))
+    tx, tt = B.sym_tx('tx', n_in, 1, n_cov, st.pc, exclude_kinds=('DoscMint',))
     st.pc.append(z3.ULE(tt['fee'], 1 << 120))
     st.pc.append(z3.ULE(tt['out0_value'], 1 << 120))
     rc = MapM()
@@ -46,8 +50,10 @@ def kernel(chk, it):
         rc = rc.insert(cid, cdh)
         tot = tot + z3.ZeroExt(8, cdh.fields[0].fields[1].fields[0])
     st.pc.append(z3.ULE(tot, z3.BitVecVal(1 << 127, 136)))
-    c0, c1 = tx.fields[1].fields
-    st.pc.append(z3.Not(val_eq(c0, c1)))
+    ins_ = tx.fields[1].fields
+    for a_ in range(n_in):
+        for b_ in range(a_ + 1, n_in):
+            st.pc.append(z3.Not(val_eq(ins_[a_], ins_[b_])))  # load_relevant_coins has rejected repeated inputs (C02)
     new_stakes = Opaque('Map', MapM())
     fn = it.by_last['check_tx_validity'][0]
     txc = st.alloc(tx)
@@ -74,22 +80,26 @@ def kernel(chk, it):
             shash = M.hash_apply(st, 'single:symbytes', [sid])
             alts.append(z3.And(shash == B.cdh_covhash(cdhs[i]), MM.COV_DECODES(sid), MM.COV_EXEC(sid, txid, envid)))
         return z3.Or(alts)
-    want = [approved(0), approved(1)]
+    want = [approved(i) for i in range(n_in)]
+    checked = (0, 1) if n_in == 2 else sorted(set([0, 1, n_in // 2, n_in - 2, n_in - 1]))
     covers = {}
     n = 0
     for idx, (s, o) in enumerate(outs):
-        name = 'check_tx_validity/%d' % idx
-        rp = lambda mo, s=s: replay(chk, mo, inputs)
+        name = 'check_tx_validity/%s%d' % ('' if n_in == 2 else '%din/' % n_in, idx)
+        rp = lambda mo, s=s: replay(chk, mo, inputs, n_in)
         if isinstance(o, Panic):
-            chk.obligation('PANIC/' + name, list(s.pc), z3.BoolVal(False), inputs, replay=None, kind='PANIC', describe=str(o))
+            if n_in == 2:  # panic freedom of the wider shapes is not this kernel's subject (C09)
+                chk.obligation('PANIC/' + name, list(s.pc), z3.BoolVal(False), inputs, replay=None, kind='PANIC', describe=str(o))
             continue
         n += 1
         ok = M.is_variant(o.v, 'Ok')
         pcs = list(s.pc)
         # "cov_ran" variables say whether execution returned a value at all; a script that did not return fails
-        for i in (0, 1):
+        for i in checked:
             chk.obligation('FUNC/accepted-only-if-input-%d-approved-in-its-own-environment/%s' % (i, name), pcs + [ok], want[i],
-                           inputs, replay=rp, bound='2 inputs whose covenant hashes may coincide')
+                           inputs, replay=lambda mo, i=i: replay(chk, mo, inputs, n_in, i), bound='%d inputs whose covenant hashes may coincide' % n_in)
+        if n_in != 2:
+            continue
         same = B.cdh_covhash(cdhs[0]) == B.cdh_covhash(cdhs[1])
         covers.setdefault('two coins locked by the same covenant spent together', []).append((pcs, z3.And(ok, same)))
         covers.setdefault('accepted with two different covenants', []).append((pcs, z3.And(ok, z3.Not(same))))
@@ -111,13 +121,18 @@ def kernel(chk, it):
         chk.cover_any(cname, alts)
 
 
-def replay(chk, model, inputs):
+def replay(chk, model, inputs, n_in=2, pos=None):
     """two coins locked by the same position-dependent covenant (`spender index == 0`), spent by one transaction: the
-    covenant approves the first input's environment and refuses the second's"""
+    covenant approves the first input's environment and refuses the second's.  For the wider kernels: n coins, the one at the
+    obligation's position locked by `spender index == k` for every k, the others by an always-true covenant -- accepted must
+    coincide with the covenant's own verdict in that coin's environment"""
     req = {'kind': 'c04_env'}
+    if n_in != 2:
+        req = {'kind': 'c04_env', 'n_inputs': n_in, 'pos': pos if pos is not None else n_in - 1}
     out = harness.run_replay([req], 'dev')[0]
     if 'error' in out:
         raise Inconclusive('replay: ' + out['error'])
     bad = bool(out.get('panicked')) or (out.get('accepted') and not out.get('all_inputs_approve')) \
-        or bool(out.get('refusing_covenants_accepted')) or bool(out.get('missing_script_accepted'))
+        or bool(out.get('refusing_covenants_accepted')) or bool(out.get('missing_script_accepted')) \
+        or bool(out.get('positional_mismatch'))
     return bad, req, out
